@@ -89,16 +89,20 @@ StringDictionaryHASHRPDACBlocks::StringDictionaryHASHRPDACBlocks(
         next_part_index = parts.size();
         parts.push_back(nullptr);
       }
+      LIBCSD_VERIF_POINT(PT_BLOCK_QUEUED, next_part_index, 0);
 
       wpool.add_task(
           [this, next_part_index, sub_it, overhead, &m, &parts_done, &cv]() {
+            LIBCSD_VERIF_POINT(PT_BLOCK_BEGIN, next_part_index, 0);
             StringDictionary *sd =
                 new StringDictionaryHASHRPDAC(sub_it, 0, overhead);
+            LIBCSD_VERIF_POINT(PT_BLOCK_BUILT, next_part_index, 0);
             {
               std::lock_guard lg(m);
               parts[next_part_index] = sd;
               parts_done++;
             }
+            LIBCSD_VERIF_POINT(PT_BLOCK_STORED, next_part_index, 0);
             cv.notify_all();
           });
 
@@ -110,10 +114,12 @@ StringDictionaryHASHRPDACBlocks::StringDictionaryHASHRPDACBlocks(
   }
   std::unique_lock<std::mutex> ul(m);
   cv.wait(ul, [this, &parts_done]() { return parts_done == parts.size(); });
+  LIBCSD_VERIF_POINT(PT_BLOCK_WAIT_DONE, parts_done, parts.size());
   wpool.stop_all_workers();
   wpool.wait_workers();
   delete it;
   this->elements = strings_qty;
+  LIBCSD_VERIF_POINT(PT_BLOCK_RETURN, parts.size(), 0);
 }
 
 unsigned long StringDictionaryHASHRPDACBlocks::locate(uchar *str,
